@@ -105,6 +105,10 @@ BodyFaultOk(e) == /\ e.headOk                                         \* the hea
 ConnFaultOk(e) ==
   IF e.what = "ok"
   THEN e.r1 = "Ok" /\ e.ws1 = "None" /\ e.r2 = "ResponseAlreadySent" /\ e.statusLines = 1 /\ e.firstCode = 200 /\ e.bodyIsPrefix
+  ELSE IF e.what = "socket"                                           \* the peer went away while the response was being written
+  THEN /\ e.r1 = "Disconnected" /\ e.ws1 = "Shutdown"                 \* bytes were sent: the write side is shut ...
+       /\ e.r2 = "Disconnected" /\ e.ws2 = "Shutdown"                 \* ... the 500 that would follow is refused, not attempted ...
+       /\ e.r3 = "Disconnected" /\ e.firstCode = 200                  \* ... and no further request is read
   ELSE IF e.what \in {"short", "missing"}
   THEN /\ e.r1 \in {"ErrorReadingResponseBody", "ErrorReadingFile"}
        /\ e.ws1 = "Shutdown"                                          \* bytes were sent: the write side is shut ...
